@@ -239,9 +239,10 @@ def validateField (S : SchemaView) (parentType : String) (pathLen : Nat) (conn :
         let typed : Res FrontErr (String × Nat) :=
           match coercedTo with
           | some coerced =>
-            -- `&schema.vertex_types[pre_coercion_type_name]`
+            -- `schema.vertex_types.get(pre_coercion_type_name)`: a type that is not a vertex type
+            -- is not an interface (fix of F-8; an index expression that panicked before)
             match S.vertexType pre with
-            | none => .panic .coercePropertyIndex
+            | none => .err .CannotCoerceNonInterfaceType
             | some preDef =>
               if !preDef.isInterface then .err .CannotCoerceNonInterfaceType
               else
@@ -267,7 +268,9 @@ end
 
 /-- `validate_query_against_schema`. -/
 def validateQuery (S : SchemaView) (q : Query) : Res FrontErr Unit :=
-  validateField S S.queryType 0 q.rootConnection q.rootField >>= fun _ => .ok ()
+  -- the root must be an edge of the root query type (fix of F-C10-1)
+  if q.rootField.name == TYPENAME then .err .PropertyMetaFieldUsedAsEdge
+  else validateField S S.queryType 0 q.rootConnection q.rootField >>= fun _ => .ok ()
 
 /-! ## State of the handlers threaded through the traversal -/
 
@@ -525,7 +528,13 @@ def binaryOperandTypesValid (op : BinOp) (leftType : FTy) (right : ArgM) (tagNam
   | .ordering =>
     let e1 := if !leftType.isOrderable then [FrontErr.OrderingFilterOperationOnNonOrderableSubject] else []
     (if !rightType.isOrderable then
-      tagMismatch right tagName .OrderingFilterOperationWithNonOrderableArgument
+      -- only a tag can be non-orderable on its own (fix of F-12: `if let Some(tag) = ..as_tag()`)
+      match right.asTag with
+      | none => .ok []
+      | some _ =>
+        match tagName with
+        | none => .panic .tagNameUnwrap
+        | some _ => .ok [.OrderingFilterOperationWithNonOrderableArgument]
      else .ok []) >>= fun e2 =>
     (if !leftType.equalIgnoringNullability rightType then
       tagMismatch right tagName .TypeMismatchBetweenFilterSubjectAndArgument
@@ -702,6 +711,15 @@ inductive CompIR where
 its component. -/
 abbrev FoldIR := List (String × FTy) × Nat × CompIR
 
+mutual
+/-- `collect_ir_vertices`. -/
+def collectVids : CompIR → List Vid
+  | .mk vids _ _ folds => vids ++ collectVidsFolds folds
+def collectVidsFolds : List FoldIR → List Vid
+  | [] => []
+  | (_, _, c) :: rest => collectVids c ++ collectVidsFolds rest
+end
+
 /-- The maps local to one `make_query_component` call. -/
 structure CD where
   vertices : List VertexRec
@@ -856,7 +874,9 @@ def componentPost (S : SchemaView) (st : St) (cd : CD) (fillErrs : List FrontErr
       r.1.outputsEndSubcomponent >>= fun r2 =>
       if !(duplicateNames r2.2).isEmpty then
         -- `make_duplicated_output_names_error(&ir_vertices, duplicates)`: `ir_vertices[&vid]`
-        if (duplicateRefs r2.2).all (fun f => r.2.2.1.any (·.1 == f.vid)) then
+        -- (since the fix of F-C10-3 `ir_vertices` is extended by the vertices of the folds)
+        if (duplicateRefs r2.2).all (fun f =>
+            r.2.2.1.any (·.1 == f.vid) || (collectVidsFolds cd.folds).contains f.vid) then
           .ok (r2.1, .error [.MultipleOutputsWithSameName])
         else .panic .dupOutputVertexIndex
       else
@@ -1016,15 +1036,6 @@ def fillVariablesFolds (vars : List (String × FTy)) (errs : List FrontErr) :
   | (_, _, c) :: rest =>
     let r := fillVariables vars errs c
     fillVariablesFolds r.1 r.2 rest
-end
-
-mutual
-/-- `collect_ir_vertices`. -/
-def collectVids : CompIR → List Vid
-  | .mk vids _ _ folds => vids ++ collectVidsFolds folds
-def collectVidsFolds : List FoldIR → List Vid
-  | [] => []
-  | (_, _, c) :: rest => collectVids c ++ collectVidsFolds rest
 end
 
 /-- `get_output_type`'s loop: `new_list_type` once per enclosing `@fold`. -/
